@@ -9,6 +9,7 @@ import StamModel.Driver.Tp
 import StamModel.Driver.Ql
 import StamModel.Driver.Wj
 import StamModel.Driver.Cc
+import StamModel.Driver.Tid
 /-
   Line-protocol driver: one request per line on stdin, one answer per line on stdout.
   Built as the `stamdriver` executable (core Lean only).
@@ -29,6 +30,7 @@ def step (line : String) : String :=
   | "ql" :: args => ql args
   | "wj" :: args => wj args
   | "cc" :: args => cc args
+  | "tid" :: args => tid args
   | ["reset"] => "ok"
   | _ => "bad-op"
 
